@@ -103,7 +103,23 @@ type StringLiteralExpression struct {
 
 func (self StringLiteralExpression) Kind() ExpressionKind { return StringLiteralExpressionKind }
 func (self StringLiteralExpression) Span() errors.Span    { return self.Range }
-func (self StringLiteralExpression) String() string       { return fmt.Sprintf("\"%s\"", self.Value) }
+func (self StringLiteralExpression) String() string {
+	return fmt.Sprintf("\"%s\"", escapeStringLiteral(self.Value))
+}
+
+func escapeStringLiteral(input string) string {
+	return stringLiteralEscaper.Replace(input)
+}
+
+// Escapes a string value so that the lexer reads the printed literal back as the same value.
+var stringLiteralEscaper = strings.NewReplacer(
+	"\\", "\\\\",
+	"\"", "\\\"",
+	"\n", "\\n",
+	"\t", "\\t",
+	"\r", "\\r",
+	"\b", "\\b",
+)
 
 //
 // Ident expression
